@@ -12,10 +12,10 @@
                           colour names; derived Axis / Justify / Align / Margins) as arbitrary functions
      no_panic o           o is Ok or Err (not Panic, and the model's fuel did not run out) *)
 From Coq Require Import String.
-From Coq Require Import List NArith Bool.
+From Coq Require Import List NArith ZArith Bool.
 From SNT Require Import Base.Outcome Keys.KeyParse Keys.KeyParseProofs Keys.KeyParseRoundTrip
   Encoder.Base64 Serde.Json Serde.ImageDe Serde.ImageProofs Serde.FaceStr Serde.FaceProofs
-  Serde.ViewDe Serde.ViewProofs.
+  Serde.ViewDe Serde.ViewProofs Surface.Bounds Surface.Shape Surface.ShapeProofs Serde.ImageCrop.
 Import ListNotations.
 Local Open Scope N_scope.
 
@@ -49,6 +49,19 @@ Proof. intros lower LS s ks H. exact (chord_roundtrip lower LS s ks H). Qed.
 Theorem C19_image_roundtrip : forall img : image,
   image_ok img -> image_de (image_ser img) = Ok img.
 Proof. exact image_roundtrip. Qed.
+
+(* cropped views: the image value of any chain of view operations on an H x W pixel vector (its pixels are
+   the cells of the window, Surface/Shape.v `iter`, C07) round-trips *)
+Theorem C19_image_cropped : forall (H W : nat) (ops : list vop) (data : list rgba),
+  (Z.of_nat (Nat.max H W) <= i64_max)%Z ->
+  forallb op_in ops = true ->
+  (H * W <= List.length data)%nat ->
+  forallb rgba_okb data = true ->
+  let sh := apply_chain (of_size H W) ops in
+  N.of_nat (sh_height sh) <= u64_max -> N.of_nat (sh_width sh) <= u64_max ->
+  N.of_nat (sh_height sh) * N.of_nat (sh_width sh) * 4 < usize_lim ->
+  image_de (image_ser (view_image sh data)) = Ok (view_image sh data).
+Proof. exact cropped_roundtrip. Qed.
 
 (* the three channel layouts on input: whatever the order of the keys and however often they repeat, once
    the visitor has collected a size, a channel count c in {1,3,4} and data of c*h*w bytes, the image has
